@@ -16,11 +16,11 @@ RULE = ("Inputs aimed at each parallel region: (a) 100..400 short sequences (k-m
         "yield / 50us / 1ms / 10ms, how many matching events; total injected delay capped at 0.6 s per run) applied inside the guarded hook, plus one run of the library built without OpenMP. Oracle: "
         "(1) rows byte-identical to the reference, (2) same for the no-OpenMP build, (3) event-log invariants of every run: "
         "MERGE_END(child) precedes MERGE_BEGIN(parent) for both children of every node; for every DP step FWD_END and BWD_END "
-        "precede MEETUP. Thorough adds ThreadSanitizer+Archer runs. Non-trivial = the event log shows >= 2 distinct threads "
+        "precede MEETUP. (4) ThreadSanitizer + Archer (clang/libomp build) on 9 (quick) / 48 (thorough) further inputs covering the three regions: a data-race report with a kalign frame is a violation. Non-trivial = the event log shows >= 2 distinct threads "
         "and >= 1 pair of overlapping merge intervals or overlapping forward/backward halves; distinct by case hash.")
 ASSUMPTIONS = ["schedules are sampled (thread counts, environments, injected delays, repetitions), not enumerated",
                "hook sequence numbers are taken with one atomic increment at event entry, so log order respects happens-before"]
-BUDGET = {"quick": dict(examples=20, workers=8, seconds=100), "thorough": dict(examples=160, workers=8, seconds=1100)}
+BUDGET = {"quick": dict(examples=16, workers=8, seconds=90), "thorough": dict(examples=160, workers=8, seconds=1100)}
 
 THREADS = [1, 2, 3, 4, 7, 8, 16, 32, 64]
 EV = {"MERGE_BEGIN": 1, "MERGE_END": 2, "FWD_BEGIN": 3, "FWD_END": 4, "BWD_BEGIN": 5, "BWD_END": 6, "MEETUP": 7}
@@ -187,14 +187,12 @@ def check(case):
 
 def extra(tier, seed, stats):
     out = []
-    if tier != "thorough":
-        return out
     rnd = random.Random(seed)
     archer = "/usr/lib/llvm-14/lib/libarcher.so"
     env = {"OMP_MAX_ACTIVE_LEVELS": "2", "OMP_WAIT_POLICY": "passive"}
     if os.path.exists(archer):
         env["OMP_TOOL_LIBRARIES"] = archer
-    n_cases = 24
+    n_cases = 9 if tier != "thorough" else 48
     for ci in range(n_cases):
         alpha = gen.NUC if ci % 2 == 0 else gen.AA
         if ci % 3 == 0:
